@@ -181,3 +181,24 @@ func formatErrLine(r RunResult) string {
 	}
 	return m[0]
 }
+
+// decoyPackages: two further entries for a `packages:` section and the sources they need. An unrelated
+// recursive package carries template-data that contradicts the scenario's; one of its sub-packages is also
+// listed explicitly (without settings), so that the recursive inheritance pass runs over a package that shares
+// whatever it inherited from the top level. Nothing set there may reach the package under test.
+func decoyPackages(tdLines []string) (string, map[string]string) {
+	var b strings.Builder
+	b.WriteString("  example.com/m/decoy:\n    config:\n      all: true\n      recursive: true\n")
+	if len(tdLines) > 0 {
+		b.WriteString("      template-data:\n")
+		for _, l := range tdLines {
+			b.WriteString("        " + l + "\n")
+		}
+	}
+	b.WriteString("  example.com/m/decoy/inner:\n    config:\n      all: true\n")
+	files := map[string]string{
+		"decoy/d.go":       "package decoy\n\ntype D interface{ Ping(x int) error }\n",
+		"decoy/inner/i.go": "package inner\n\ntype In interface{ Pong(xs ...string) (int, error) }\n",
+	}
+	return b.String(), files
+}
